@@ -169,6 +169,7 @@ PROPS = {
         tests=[
             dict(name="TestRawGraph", quick=4000, thorough=40000, shards_thorough=10),
             dict(name="TestTypedChain", quick=3000, thorough=30000, shards_thorough=6),
+            dict(name="FuzzGraph", quick=0, thorough=120, shards_thorough=1, fuzz=True, rapid=False, fuzz_workers=8),
         ],
     ),
     "C18": dict(
